@@ -10,7 +10,7 @@ ID = 'C04'
 LEVEL = 'exploration'
 RULE = ('worlds = 6 layer shapes x every placement of <=K faulty test '
         'scripts (every raising phase: setUp, body, subtests, tearDown, '
-        'cleanup, two-event tests, SystemExit; 14 exception shapes for the '
+        'cleanup, two-event tests, SystemExit; 16 exception shapes for the '
         'body error incl. chained/contextual/grouped/annotated ones and one '
         'whose __str__ raises) x <=1 failing layer hook x --buffer on/off x -v levels x '
         '{sequential, -j2}; the real Runner must return, run every other '
@@ -32,7 +32,7 @@ MENU = ['fail', 'setup_err', 'teardown_err', 'cleanup_err', 'body+teardown',
         'skip_dec', 'xfail']
 EXCS = ['ValueError', 'KeyError', 'User', 'Deep', 'BadStr', 'Unicode',
         'Recursion', 'Stop', 'OSError', 'Chained', 'Context', 'Chain3',
-        'Group', 'Noted']
+        'Group', 'Noted', 'Syntax', 'Indent']
 
 
 def _menu():
@@ -49,7 +49,7 @@ def cases(tier, seed):
     menu = worlds.rot(_menu(), seed)
     K = 1 if tier == 'quick' else 2
     vs = [0, 2] if tier == 'quick' else [0, 1, 2, 3]
-    modes = ['seq', 'j2'] if tier == 'quick' else ['seq', 'j2', 'j3', 'p']
+    modes = ['seq', 'j2', 'c'] if tier == 'quick' else ['seq', 'j2', 'j3', 'p', 'c', 'c+j2']
     for shape in ow.SHAPES:
         nslots = len(ow.SHAPES[shape][1])
         for scripts in ow.placements(nslots, menu, K):
@@ -81,6 +81,10 @@ def argv_of(buf, v, mode):
         argv.append('-j3')
     elif mode == 'p':
         argv.append('-p')
+    elif mode == 'c':
+        argv.append('-c')
+    elif mode == 'c+j2':
+        argv += ['-c', '-j2']
     return argv
 
 
@@ -117,6 +121,8 @@ def run_case(case):
         outs = monitors.outputs_by_vpid(res)
         for vp, ls in layers_by_vpid.items():
             nran = len(runrt.RAN_RE.findall((outs.get(vp) or b'').decode('utf-8', 'replace')))
+            if mode.startswith('c'):
+                break        # the colour formatter decorates the summary line
             if nran < len(ls) or (nran != len(ls) and mode in ('seq', 'p')):
                 V('summary_lines', 'process %s: %d "Ran" lines for %d layers that ran tests there' % (vp, nran, len(ls)))
         ftests, flayers, fsubs, fother = ow.split_names(res.failures or [])
